@@ -1338,8 +1338,8 @@ func detectUnionChanges(newType, oldType *GeneralizedType, context *EvolutionCon
 				continue
 			}
 
-			switch ch := compareTypes(newCase.Type, oldCase.Type, context).(type) {
-			case nil, *TypeChangeDefinitionChanged:
+			ch := compareTypes(newCase.Type, oldCase.Type, context)
+			if ch == nil || onlyDefinitionsChanged(ch) {
 				// Found matching type
 				newMatches[i] = true
 				oldMatches[j] = true
@@ -1347,7 +1347,7 @@ func detectUnionChanges(newType, oldType *GeneralizedType, context *EvolutionCon
 					typesReordered = true
 				}
 
-				if _, ok := ch.(*TypeChangeDefinitionChanged); ok {
+				if ch != nil {
 					// They underling definition for the matching type changed
 					innerTypeDefsChanged = true
 				}
@@ -1383,6 +1383,20 @@ func detectUnionChanges(newType, oldType *GeneralizedType, context *EvolutionCon
 	}
 
 	return nil
+}
+
+// Whether the only difference is a changed TypeDefinition, possibly within vectors or optionals.
+// Such values are converted by the definition's compatibility serializers.
+func onlyDefinitionsChanged(tc TypeChange) bool {
+	switch tc := tc.(type) {
+	case *TypeChangeDefinitionChanged:
+		return true
+	case *TypeChangeVectorTypeChanged:
+		return onlyDefinitionsChanged(tc.InnerChange)
+	case *TypeChangeOptionalTypeChanged:
+		return onlyDefinitionsChanged(tc.InnerChange)
+	}
+	return false
 }
 
 func detectStreamChanges(newType, oldType *GeneralizedType, innerChange TypeChange, context *EvolutionContext) TypeChange {
